@@ -121,6 +121,42 @@ fn receipt_json(r: &fuel_tx::Receipt) -> Option<Value> {
     }
 }
 
+/// Execute a built script's `main` on the VM the way the repository's e2e harness (`runs_in_vm`) does.
+fn run_main(bytecode: Vec<u8>, script_data: Vec<u8>) -> anyhow::Result<(fuel_vm::state::ProgramState, Vec<fuel_tx::Receipt>)> {
+    use fuel_vm::checked_transaction::builder::TransactionBuilderExt;
+    use fuel_vm::fuel_tx::consensus_parameters::ConsensusParametersV1;
+    use fuel_vm::prelude::*;
+    use rand::{Rng, SeedableRng};
+    let storage = MemoryStorage::default();
+    let rng = &mut rand::rngs::StdRng::seed_from_u64(2322u64);
+    let maturity = 1.into();
+    let block_height = (u32::MAX >> 1).into();
+    let max_size = 64 * 1024 * 1024;
+    let script_params = ScriptParameters::DEFAULT
+        .with_max_script_length(max_size)
+        .with_max_script_data_length(max_size);
+    let tx_params = TxParameters::DEFAULT.with_max_size(max_size);
+    let params = ConsensusParameters::V1(ConsensusParametersV1 { script_params, tx_params, ..Default::default() });
+    let mut tb = fuel_tx::TransactionBuilder::script(bytecode, script_data);
+    tb.with_params(params)
+        .add_unsigned_coin_input(SecretKey::random(rng), rng.gen(), 1, Default::default(), rng.gen())
+        .maturity(maturity);
+    let consensus_params = tb.get_params().clone();
+    let params = ConsensusParameters::default();
+    let tmp_tx = tb.clone().finalize();
+    let max_gas = tmp_tx.max_gas(consensus_params.gas_costs(), consensus_params.fee_params()) + 1;
+    tb.script_gas_limit(consensus_params.tx_params().max_gas_per_tx() - max_gas);
+    let tx = tb
+        .finalize_checked(block_height)
+        .into_ready(0, params.gas_costs(), params.fee_params(), None)
+        .map_err(|e| anyhow::anyhow!("{e:?}"))?;
+    let mem_instance = fuel_vm::interpreter::MemoryInstance::new();
+    let mut i: fuel_vm::interpreter::Interpreter<_, _, _, forc_test::ecal::EcalSyscallHandler> =
+        fuel_vm::interpreter::Interpreter::with_storage(mem_instance, storage, Default::default());
+    let transition = i.transact(tx).map_err(anyhow::Error::msg)?;
+    Ok((*transition.state(), transition.receipts().to_vec()))
+}
+
 fn write_pkg(dir: &Path, rec: &Value) {
     let _ = std::fs::remove_dir_all(dir);
     std::fs::create_dir_all(dir.join("src")).unwrap();
@@ -327,6 +363,10 @@ fn main() {
             }
             Ok(Ok(b)) => b,
         };
+        let want_main = rec.get("run_main").and_then(|v| v.as_bool()).unwrap_or(false);
+        let script_data: Vec<u8> = rec.get("script_data").and_then(|v| v.as_array())
+            .map(|a| a.iter().map(|x| x.as_u64().unwrap_or(0) as u8).collect()).unwrap_or_default();
+        let mut main_code: Option<(String, Vec<u8>)> = None;
         // describe the built package(s)
         let mut pk = vec![];
         for (_pinned, b) in built.into_members() {
@@ -340,6 +380,9 @@ fn main() {
             if want.iter().any(|w| w == "bytecode") {
                 o["bytecode"] = json!(b.bytecode.bytes);
             }
+            if want_main && matches!(b.tree_type, sway_core::language::parsed::TreeType::Script) {
+                main_code = Some((b.descriptor.name.clone(), b.bytecode.bytes.clone()));
+            }
             if want.iter().any(|w| w == "abi") {
                 if let sway_core::asm_generation::ProgramABI::Fuel(abi) = &b.program_abi {
                     o["abi"] = serde_json::to_value(abi).unwrap_or(Value::Null);
@@ -351,6 +394,23 @@ fn main() {
             pk.push(o);
         }
         out.emit(&json!({"ev":"Built","id":id,"cfg":cfg,"ok":true,"panic":null,"pkgs":pk,"diag": if want.iter().any(|w| w=="diag") { json!(diag()) } else { Value::Null }}));
+        if let Some((name, code)) = main_code {
+            let r = std::panic::catch_unwind(std::panic::AssertUnwindSafe(|| run_main(code, script_data.clone())));
+            match r {
+                Ok(Ok((state, receipts))) => {
+                    let st = match &state {
+                        fuel_vm::state::ProgramState::Return(w) => json!({"k":"return","v":word_bytes(*w)}),
+                        fuel_vm::state::ProgramState::ReturnData(d) => json!({"k":"returndata","digest":hex::encode(d.as_ref())}),
+                        fuel_vm::state::ProgramState::Revert(w) => json!({"k":"revert","v":word_bytes(*w)}),
+                        other => json!({"k":"other","dbg":format!("{other:?}")}),
+                    };
+                    let rs: Vec<Value> = receipts.iter().filter_map(receipt_json).collect();
+                    out.emit(&json!({"ev":"Main","id":id,"pkg":name,"cfg":cfg,"state":st,"receipts":rs}));
+                }
+                Ok(Err(e)) => out.emit(&json!({"ev":"Main","id":id,"pkg":name,"cfg":cfg,"err":format!("{e:#}")})),
+                Err(e) => out.emit(&json!({"ev":"Main","id":id,"pkg":name,"cfg":cfg,"panic":panic_msg(e)})),
+            }
+        }
         if !run {
             continue;
         }
